@@ -17,7 +17,6 @@ from __future__ import annotations
 """Service-related policy factories."""
 
 # pylint:disable=g-import-not-at-top
-import functools
 import time
 
 from vizier import pythia
@@ -74,14 +73,14 @@ class DefaultPolicyFactory(pythia.PolicyFactory):
     elif algorithm == 'SHUFFLED_GRID_SEARCH':
       from vizier._src.algorithms.designers import grid
 
-      shuffle_seed = int(time.time())
-      grid_factory = functools.partial(
-          grid.GridSearchDesigner.from_problem, shuffle_seed=shuffle_seed
-      )
+      # The seed reaches `from_problem(problem, seed=...)` when the study has no
+      # saved designer state yet; afterwards the shuffle seed is restored from
+      # the saved state.
       return dp.PartiallySerializableDesignerPolicy(
           problem_statement,
           policy_supporter,
-          grid_factory,
+          grid.GridSearchDesigner.from_problem,
+          seed=int(time.time()),
       )
     elif algorithm == 'NSGA2':
       from vizier._src.algorithms.evolution import nsga2
